@@ -315,14 +315,15 @@ theorem getFonts_spec (W : World) (d : DocSpec) (caching : Bool) : ∀ (rs : Lis
 
 /-- the core lemma: interpreting a page through valid caches and tables yields exactly the page
 computed from fresh values, and leaves valid caches and tables behind -/
-theorem processPage_spec (W : World) (d : DocSpec) (caching : Bool) (c : Caches) (t : Tables) (pg : PageSpec)
-    (hc : CachesOk W d c) (ht : TablesOk W t) :
-    (processPage W d caching c t pg).1 = freshPage W d pg ∧
-    CachesOk W d (processPage W d caching c t pg).2.1 ∧ TablesOk W (processPage W d caching c t pg).2.2 := by
+theorem processPage_spec (W : World) (d : DocSpec) (caching : Bool) (c : Caches) (t : Tables) (left : Interp)
+    (pg : PageSpec) (hc : CachesOk W d c) (ht : TablesOk W t) :
+    (processPage W d caching c t left pg).1 = freshPage W d pg ∧
+    CachesOk W d (processPage W d caching c t left pg).2.1 ∧
+    TablesOk W (processPage W d caching c t left pg).2.2 := by
   obtain ⟨w1, w2, _⟩ := readMany_spec W d caching pg.walk c hc
   obtain ⟨f1, f2, f3⟩ := getFonts_spec W d caching pg.fonts _ t w2 ht
   obtain ⟨r1, r2, _⟩ := readMany_spec W d caching pg.reads _ f2
-  simp only [processPage, freshPage]
+  simp only [processPage, freshPage, initState]
   refine ⟨?_, r2, f3⟩
   rw [w1, r1, f1, List.map_append]
 
@@ -369,7 +370,7 @@ theorem advance_spec (W : World) (h : Handle) (t : Tables) (hh : HandleOk W h) (
       omega
     | some pg =>
       have hw := walkRange_ok W h.doc h.caching h.c h.pos k hc
-      obtain ⟨p1, p2, p3⟩ := processPage_spec W h.doc h.caching _ t pg hw ht
+      obtain ⟨p1, p2, p3⟩ := processPage_spec W h.doc h.caching _ t h.interp pg hw ht
       simp only [advance, nextSpec, htodo, hpg]
       refine ⟨by rw [p1], ⟨p2, ?_⟩, p3, trivial, trivial, by simp⟩
       intro k' hm
